@@ -40,3 +40,13 @@ impl Dividers {
     }
 }
 } // verus!
+
+verus! {
+impl Inverter {
+    /// invpow2[j] = -2^-(8j+8) mod p
+    pub closed spec fn wf(&self, p: int) -> bool {
+        forall|j: int| 0 <= j < 8 ==> 0 <= (#[trigger] self.invpow2@[j]) as int && (self.invpow2@[j] as int) < p
+            && cong(self.invpow2@[j] as int * pow2((8 * j + 8) as nat) as int, -1, p)
+    }
+}
+} // verus!
